@@ -71,7 +71,23 @@ BVT, ArrT, FunT, CustomT = Ty.BVT, Ty.ArrT, Ty.FunT, Ty.CustomT
 fun_ret = z3.Function("fun_ret", I, Ty)
 fun_arity = z3.Function("fun_arity", I, I)
 fun_param = z3.Function("fun_param", I, I, Ty)
+cust_arity = z3.Function("cust_arity", I, I)       # custom sort constructors: number of sort arguments
+cust_arg = z3.Function("cust_arg", I, I, Ty)
 TySet = z3.SetSort(Ty)
+
+
+def ty_arity(t):
+    """PySMTType.arity: number of component types (typing.py: args)"""
+    return z3.If(Ty.is_ArrT(t), z3.IntVal(2),
+                 z3.If(Ty.is_FunT(t), 1 + fun_arity(Ty.fid(t)),
+                       z3.If(Ty.is_CustomT(t), cust_arity(Ty.cid(t)), z3.IntVal(0))))
+
+
+def ty_arg(t, i):
+    """i-th component type (i concrete)"""
+    return z3.If(Ty.is_ArrT(t), Ty.aidx(t) if i == 0 else Ty.aelem(t),
+                 z3.If(Ty.is_FunT(t), fun_ret(Ty.fid(t)) if i == 0 else fun_param(Ty.fid(t), z3.IntVal(i - 1)),
+                       cust_arg(Ty.cid(t), z3.IntVal(i))))
 
 # ---- node projections (mirror FNodeContent) --------------------------------
 op = z3.Function("op", Node, I)
